@@ -42,19 +42,26 @@ def goalOK : Term → Bool
     else f == "=" || f == "\\=" || f == "==" || f == "\\=="
   | _ => false
 
-/-- the fragment of bodies -/
+/-- the fragment of bodies.  Strict: what both evaluations cover, so that "both give no result or
+    both succeed" can be claimed.  Non-strict (`strict = false`): EVERY body the reader
+    `Body.ofTerm` delivers — the only condition left is that an alternation does not have a bare
+    if-then as its first branch (the reader makes an if-then-else of that); where the denotation does
+    not cover a construct (a goal in `{}` outside its list, a non-terminal that clashes with a
+    control construct) it gives up when it reaches it, and nothing is claimed. -/
 def Body.ok (strict : Bool) : Body → Bool
   | .eps => true
   | .terminals _ => true
-  | .nt f as => ntOK strict f as
+  | .nt f as => ntOK strict f as || !strict
   | .seq a b => a.ok strict && b.ok strict
   | .alt a b => a.ok strict && b.ok strict && !a.isIfthen
   | .ite c t e => c.ok strict && t.ok strict && e.ok strict
   | .ifthen c t => c.ok strict && t.ok strict
-  | .block g => goalOK g
+  | .block g => goalOK g || !strict
   | .not b => b.ok strict
   | .cut => true
-  | _ => false
+  | .call1 _ => !strict
+  | .phrase _ => !strict
+  | .var _ => !strict
 
 /-! ### corresponding goals and bodies on the two sides -/
 
@@ -65,6 +72,8 @@ inductive GoalRel (R : Term → Term → Prop) : Term → Term → Prop
       GoalRel R (.app "," (.cons a (.cons b .nil))) (.app "," (.cons a' (.cons b' .nil)))
   | bin {f : String} {x x' y y' : Term} : f ≠ "," → R x x' → R y y' →
       GoalRel R (.app f (.cons x (.cons y .nil))) (.app f (.cons x' (.cons y' .nil)))
+  /-- any other shape: not a goal the denotation covers -/
+  | other {g g' : Term} : goalOK g = false → (∀ uf st, ∃ e, evalBlock uf g' st = .error e) → GoalRel R g g'
 
 theorem GoalRel.mono {R R' : Term → Term → Prop} {g g' : Term} (h : GoalRel R g g')
     (f : ∀ a b, R a b → R' a b) : GoalRel R' g g' := by
@@ -72,6 +81,7 @@ theorem GoalRel.mono {R R' : Term → Term → Prop} {g g' : Term} (h : GoalRel 
   | atom a => exact .atom a
   | conj _ _ iha ihb => exact .conj iha ihb
   | bin hf hx hy => exact .bin hf (f _ _ hx) (f _ _ hy)
+  | other h1 h2 => exact .other h1 h2
 
 /-- bodies: the same shape, related terms -/
 inductive BodyRel (R : Term → Term → Prop) : Body → Body → Prop
@@ -86,6 +96,9 @@ inductive BodyRel (R : Term → Term → Prop) : Body → Body → Prop
   | block {g g' : Term} : GoalRel R g g' → BodyRel R (.block g) (.block g')
   | not {b b' : Body} : BodyRel R b b' → BodyRel R (.not b) (.not b')
   | cut : BodyRel R .cut .cut
+  | call1 {g g' : Term} : R g g' → BodyRel R (.call1 g) (.call1 g')
+  | phrase {g g' : Term} : R g g' → BodyRel R (.phrase g) (.phrase g')
+  | var {v v' : Nat} : R (.var v) (.var v') → BodyRel R (.var v) (.var v')
 
 theorem BodyRel.mono {R R' : Term → Term → Prop} {b b' : Body} (h : BodyRel R b b')
     (f : ∀ a b, R a b → R' a b) : BodyRel R' b b' := by
@@ -100,6 +113,9 @@ theorem BodyRel.mono {R R' : Term → Term → Prop} {b b' : Body} (h : BodyRel 
   | block h => exact .block (h.mono f)
   | not _ ih => exact .not ih
   | cut => exact .cut
+  | call1 h => exact .call1 (f _ _ h)
+  | phrase h => exact .phrase (f _ _ h)
+  | var h => exact .var (f _ _ h)
 
 /-! ### results -/
 
@@ -148,6 +164,15 @@ theorem RelG.rebase {strict : Bool} {W W' : World} {P1 P2 Q : Nat → Prop} {φ 
     RelG strict W Q φ rS rD := by
   cases rS <;> cases rD <;> simp_all [RelG]
   exact h.2.imp (fun _ _ h => h.rebase hs h1 h2)
+
+theorem RelG.rebase' {strict : Bool} {W W' : World} {P1 P2 Q : Nat → Prop} {φ : World → Term → Prop}
+    {rS : Res SOut} {rD : Res Out}
+    (h : RelG strict W' P2 φ rS rD) (hs : Step W W' P1) (h1 : ∀ v, P1 v → Q v) (h2 : ∀ v, P2 v → Q v ∨ W.nS ≤ v) :
+    RelG strict W Q φ rS rD := by
+  cases rS <;> cases rD <;> simp_all [RelG]
+  refine h.2.imp (fun _ _ h => ?_)
+  obtain ⟨W'', e1, e2, g, st, he⟩ := h
+  exact ⟨W'', e1, e2, g, hs.trans' st h1 h2, he⟩
 
 theorem RelG.mono {strict : Bool} {W : World} {P Q : Nat → Prop} {φ : World → Term → Prop}
     {rS : Res SOut} {rD : Res Out} (h : RelG strict W P φ rS rD) (hPQ : ∀ v, P v → Q v) :
@@ -500,17 +525,34 @@ theorem goalOK_atom {a : String} (h : goalOK (.atom a) = true) :
   simp only [goalOK, Bool.or_eq_true, beq_iff_eq] at h
   rcases h with ((h | h) | h) | h <;> simp [h]
 
-/-- the goals of the fragment have at most one answer -/
+theorem evalBlock_atom_err {a : String} (h : goalOK (.atom a) = false) (uf : Nat) (st : St) :
+    ∃ e, evalBlock uf (.atom a) st = .error e := by
+  simp only [goalOK, Bool.or_eq_false_iff, beq_eq_false_iff_ne] at h
+  obtain ⟨⟨⟨h1, h2⟩, h3⟩, h4⟩ := h
+  unfold evalBlock
+  split <;> simp_all
+
+theorem evalBlock_bin_err {f : String} {x y : Term} (hf : f ≠ ",")
+    (h : goalOK (.app f (.cons x (.cons y .nil))) = false) (x' y' : Term) (uf : Nat) (st : St) :
+    ∃ e, evalBlock uf (.app f (.cons x' (.cons y' .nil))) st = .error e := by
+  simp only [goalOK, hf, if_false, Bool.or_eq_false_iff, beq_eq_false_iff_ne] at h
+  obtain ⟨⟨⟨h1, h2⟩, h3⟩, h4⟩ := h
+  unfold evalBlock
+  split <;> simp_all
+
+/-- the goals the denotation covers have at most one answer -/
 theorem evalBlock_le_one (uf : Nat) {R : Term → Term → Prop} {gS gD : Term} (h : GoalRel R gS gD) :
-    goalOK gS = true → ∀ (st : St) (sts : List St) (c : Bool), evalBlock uf gD st = .ok (sts, c) → sts.length ≤ 1 := by
+    ∀ (st : St) (sts : List St) (c : Bool), evalBlock uf gD st = .ok (sts, c) → sts.length ≤ 1 := by
   induction h with
   | atom a =>
-    intro ok st sts c e
-    rcases goalOK_atom ok with rfl | rfl | rfl | rfl <;> simp only [evalBlock, Except.ok.injEq, Prod.mk.injEq] at e <;>
-      (obtain ⟨rfl, -⟩ := e; simp)
+    intro st sts c e
+    by_cases ok : goalOK (.atom a) = true
+    · rcases goalOK_atom ok with rfl | rfl | rfl | rfl <;> simp only [evalBlock, Except.ok.injEq, Prod.mk.injEq] at e <;>
+        (obtain ⟨rfl, -⟩ := e; simp)
+    · obtain ⟨err, he⟩ := evalBlock_atom_err (by simpa using ok) uf st
+      rw [he] at e; cases e
   | @conj a a' b b' _ _ iha ihb =>
-    intro ok st sts c e
-    simp only [goalOK, if_true, Bool.and_eq_true] at ok
+    intro st sts c e
     rw [evalBlock] at e
     cases ha : evalBlock uf a' st with
     | error err => simp [ha] at e
@@ -526,26 +568,33 @@ theorem evalBlock_le_one (uf : Nat) {R : Term → Term → Prop} {gS gD : Term} 
         | ok rb =>
           obtain ⟨sb, cb⟩ := rb
           simp only [hb, Except.ok.injEq, Prod.mk.injEq] at e
-          exact e.1 ▸ ihb ok.2 st' sb cb hb
+          exact e.1 ▸ ihb st' sb cb hb
   | @bin f x x' y y' hf _ _ =>
-    intro ok st sts c e
-    rcases goalOK_bin hf ok with rfl | rfl | rfl | rfl
-    · rw [evalBlock] at e
-      cases hu : unify uf st.σ x' y' with
-      | out => simp [hu] at e
-      | done o =>
-        cases o <;> simp only [hu, Except.ok.injEq, Prod.mk.injEq] at e <;> (obtain ⟨rfl, -⟩ := e; simp)
-    · rw [evalBlock] at e
-      cases hu : unify uf st.σ x' y' with
-      | out => simp [hu] at e
-      | done o =>
-        cases o <;> simp only [hu, Except.ok.injEq, Prod.mk.injEq] at e <;> (obtain ⟨rfl, -⟩ := e; simp)
-    · rw [evalBlock] at e
-      cases h1 : resolve uf st.σ x' <;> cases h2 : resolve uf st.σ y' <;> simp [h1, h2] at e
-      rw [← e.1]; split <;> simp
-    · rw [evalBlock] at e
-      cases h1 : resolve uf st.σ x' <;> cases h2 : resolve uf st.σ y' <;> simp [h1, h2] at e
-      rw [← e.1]; split <;> simp
+    intro st sts c e
+    by_cases ok : goalOK (.app f (.cons x (.cons y .nil))) = true
+    · rcases goalOK_bin hf ok with rfl | rfl | rfl | rfl
+      · rw [evalBlock] at e
+        cases hu : unify uf st.σ x' y' with
+        | out => simp [hu] at e
+        | done o =>
+          cases o <;> simp only [hu, Except.ok.injEq, Prod.mk.injEq] at e <;> (obtain ⟨rfl, -⟩ := e; simp)
+      · rw [evalBlock] at e
+        cases hu : unify uf st.σ x' y' with
+        | out => simp [hu] at e
+        | done o =>
+          cases o <;> simp only [hu, Except.ok.injEq, Prod.mk.injEq] at e <;> (obtain ⟨rfl, -⟩ := e; simp)
+      · rw [evalBlock] at e
+        cases h1 : resolve uf st.σ x' <;> cases h2 : resolve uf st.σ y' <;> simp [h1, h2] at e
+        rw [← e.1]; split <;> simp
+      · rw [evalBlock] at e
+        cases h1 : resolve uf st.σ x' <;> cases h2 : resolve uf st.σ y' <;> simp [h1, h2] at e
+        rw [← e.1]; split <;> simp
+    · obtain ⟨err, he⟩ := evalBlock_bin_err hf (by simpa using ok) x' y' uf st
+      rw [he] at e; cases e
+  | other _ herr =>
+    intro st sts c e
+    obtain ⟨err, he⟩ := herr uf st
+    rw [he] at e; cases e
 
 theorem dBlock_conj (uf : Nat) (a b : Term) (st : St) (l : Term)
     (h1 : ∀ sa ca, evalBlock uf a st = .ok (sa, ca) → sa.length ≤ 1) :
@@ -572,32 +621,54 @@ theorem RelG.same {strict : Bool} {W : World} (hW : W.Good) (l : Term) (c : Bool
     RelG strict W (fun _ => False) (fun _ r => r = l) (.ok ⟨[W.stS], c⟩) (.ok ⟨[(W.stD, l)], c⟩) :=
   ⟨rfl, .cons ⟨W, rfl, rfl, hW, Step.refl W _, rfl⟩ .nil⟩
 
-/-- **goals inside `{}`**: the reference evaluation and `evalBlock` correspond -/
+/-- **goals inside `{}`**: the reference evaluation and `evalBlock` correspond (for a goal the
+    denotation does not cover it gives up: nothing is claimed, non-strict reading only) -/
 theorem block_sim (strict : Bool) (uf : Nat) (call : Term → St → Res SOut) {R : Term → Term → Prop}
     {gS gD : Term} (h : GoalRel R gS gD) :
-    goalOK gS = true → ∀ (W : World), W.Good → (∀ a b, R a b → W.Eq a b) → ∀ l : Term,
+    (goalOK gS = true ∨ strict = false) → ∀ (W : World), W.Good → (∀ a b, R a b → W.Eq a b) → ∀ l : Term,
       RelG strict W (fun _ => False) (fun _ r => r = l) (solveGoal uf call gS W.stS)
         (dBlock (evalBlock uf gD W.stD) l) := by
   induction h with
   | atom a =>
-    intro ok W hW _ l
-    rcases goalOK_atom ok with rfl | rfl | rfl | rfl
-    · simp only [solveGoal, evalBlock, dBlock, List.map]; exact RelG.same hW l false
-    · simp only [solveGoal, evalBlock, dBlock, List.map]; exact ⟨rfl, .nil⟩
-    · simp only [solveGoal, evalBlock, dBlock, List.map]; exact ⟨rfl, .nil⟩
-    · simp only [solveGoal, evalBlock, dBlock, List.map]; exact RelG.same hW l true
+    intro hok W hW _ l
+    by_cases ok : goalOK (.atom a) = true
+    · rcases goalOK_atom ok with rfl | rfl | rfl | rfl
+      · simp only [solveGoal, evalBlock, dBlock, List.map]; exact RelG.same hW l false
+      · simp only [solveGoal, evalBlock, dBlock, List.map]; exact ⟨rfl, .nil⟩
+      · simp only [solveGoal, evalBlock, dBlock, List.map]; exact ⟨rfl, .nil⟩
+      · simp only [solveGoal, evalBlock, dBlock, List.map]; exact RelG.same hW l true
+    · have hs : strict = false := by rcases hok with h | h; exact absurd h ok; exact h
+      obtain ⟨err, he⟩ := evalBlock_atom_err (by simpa using ok) uf W.stD
+      rw [he]; exact RelG.errD hs _
   | @conj a a' b b' ha _ iha ihb =>
-    intro ok W hW hR l
-    simp only [goalOK, if_true, Bool.and_eq_true] at ok
+    intro hok W hW hR l
+    have hok' : (goalOK a = true ∨ strict = false) ∧ (goalOK b = true ∨ strict = false) := by
+      rcases hok with h | h
+      · simp only [goalOK, if_true, Bool.and_eq_true] at h
+        exact ⟨.inl h.1, .inl h.2⟩
+      · exact ⟨.inr h, .inr h⟩
     rw [show Term.app "," (.cons a (.cons b .nil)) = Term.a2 "," a b from rfl, solveGoal_conj',
-      dBlock_conj uf a' b' W.stD l (fun sa ca e => evalBlock_le_one uf ha ok.1 _ sa ca e)]
-    exact conjG (iha ok.1 W hW hR l) _ _
+      dBlock_conj uf a' b' W.stD l (fun sa ca e => evalBlock_le_one uf ha _ sa ca e)]
+    exact conjG (iha hok'.1 W hW hR l) _ _
       (fun W' r g st hr => by
         cases hr
-        exact ihb ok.2 W' g (fun a b h => st.eq _ _ (hR a b h)) l)
+        exact ihb hok'.2 W' g (fun a b h => st.eq _ _ (hR a b h)) l)
       (fun _ h => h) (fun _ h => h)
+  | other hno herr =>
+    intro hok W hW _ l
+    have hs : strict = false := by
+      rcases hok with h | h
+      · rw [hno] at h; cases h
+      · exact h
+    obtain ⟨err, he⟩ := herr uf W.stD
+    rw [he]; exact RelG.errD hs _
   | @bin f x x' y y' hf hx hy =>
-    intro ok W hW hR l
+    intro hok W hW hR l
+    by_cases ok : goalOK (.app f (.cons x (.cons y .nil))) = true
+    case neg =>
+      have hs : strict = false := by rcases hok with h | h; exact absurd h ok; exact h
+      obtain ⟨err, he⟩ := evalBlock_bin_err hf (by simpa using ok) x' y' uf W.stD
+      rw [he]; exact RelG.errD hs _
     rcases goalOK_bin hf ok with rfl | rfl | rfl | rfl
     · rw [show Term.app "=" (.cons x (.cons y .nil)) = Term.a2 "=" x y from rfl, solveGoal_eq, evalBlock]
       have hu := unify_sim uf uf (Nat.le_refl _) W hW x y x' y' (hR _ _ hx) (hR _ _ hy)
@@ -684,12 +755,12 @@ theorem ofList_eq_two {l : List Term} {c t : Term} (h : Args.ofList l = .cons c 
   have := congrArg Args.toList h
   simpa [Args.toList] using this
 
-theorem tr_notThen2 (strict : Bool) (b : Body) (hb : b.ok strict = true) (hi : b.isIfthen = false) (i o : Term) (n : Nat) :
+theorem tr_notThen2 (strict : Bool) (b : Body) (hb : b.ok strict = true) (hi : b.isIfthen = false)
+    (hne : b ≠ .nt "->" []) (i o : Term) (n : Nat) :
     notThen (b.tr i o n).1 := by
   intro c t
   cases b with
   | nt f as =>
-    simp only [Body.ok] at hb
     simp only [Body.tr]
     rw [mk_append2]
     intro h
@@ -700,9 +771,9 @@ theorem tr_notThen2 (strict : Bool) (b : Body) (hb : b.ok strict = true) (hi : b
       | nil => rfl
       | cons a as => simp at this; cases as <;> simp at this
     subst has h1
-    simp [ntOK, special, ctl2] at hb
+    exact hne rfl
   | ifthen c t => simp [Body.isIfthen] at hi
-  | _ => simp_all [Body.ok, Body.tr, Term.a2]
+  | _ => simp_all [Body.ok, Body.tr, Term.a2, Term.a3]
 
 /-! ### the denotation of a body in terms of the combinators -/
 
@@ -772,10 +843,54 @@ theorem All2.isEmpty_eq' {α β : Type} {R : α → β → Prop} {as : List α} 
     as.isEmpty = bs.isEmpty := by
   cases h <;> rfl
 
+/-- a non-terminal that clashes with a control construct is an error of the denotation -/
+def DynErr (dyn : Dyn → St → Term → Res Out) : Prop :=
+  ∀ (f : String) (as : List Term), ntOK false f as = false → ∀ (st : St) (l : Term), ∃ e, dyn (.nt f as) st l = .error e
+
+/-- what the denotation does for call//1 -/
+def denCall1 (dyn : Dyn → St → Term → Res Out) (g : Term) (st : St) (l : Term) : Res Out :=
+  match walk st.σ g with
+  | .atom a => barrier (dyn (.nt a []) st l)
+  | .app f as => barrier (dyn (.nt f as.toList) st l)
+  | _ => .error (.unsupported "call//1 of a non-callable term")
+
+/-- call//1: `call(G, S0, S)` against the denotation's call//1 -/
+def Call1W (dyn : Dyn → St → Term → Res Out) (call : Term → St → Res SOut) : Prop :=
+  ∀ (gS gD : Term) (W : World), W.Good → ∀ (x l : Term) (s : Nat), W.Eq x l → W.Eq gS gD → ¬ W.TS s → s < W.nS →
+    RelW false W (fun v => v = s) s (call (Term.a3 "call" gS x (.var s)) W.stS) (denCall1 dyn gD W.stD l)
+
+/-- phrase//1 and variable bodies: `phrase(G, S0, S)` against the run-time body -/
+def LateW (dyn : Dyn → St → Term → Res Out) (call : Term → St → Res SOut) : Prop :=
+  ∀ (gS gD : Term) (W : World), W.Good → ∀ (x l : Term) (s : Nat), W.Eq x l → W.Eq gS gD → ¬ W.TS s → s < W.nS →
+    RelW false W (fun v => v = s) s (call (Term.a3 "phrase" gS x (.var s)) W.stS)
+      (barrier (dyn (.late gD) W.stD l))
+
+theorem ntOK_false_len (f : String) {as bs : List Term} (h : as.length = bs.length) :
+    ntOK false f as = ntOK false f bs := by
+  unfold ntOK
+  split
+  · match as, bs, h with
+    | [], [], _ => rfl
+    | [_], [_], _ => rfl
+    | _ :: _ :: _, _ :: _ :: _, _ => rfl
+  · rw [h]
+
+theorem solveGoal_a3 (uf : Nat) (call : Term → St → Res SOut) (f : String) (a b c : Term) (st : St) :
+    solveGoal uf call (Term.a3 f a b c) st = call (Term.a3 f a b c) st := by
+  simp only [Term.a3]
+  conv => lhs; unfold solveGoal
+  split <;> simp_all
+
+theorem ok_strict_false {strict : Bool} {f : String} {as : List Term}
+    (hok : (ntOK strict f as || !strict) = true) (hno : ntOK strict f as = false) : strict = false := by
+  simpa [hno] using hok
+
 /-- **bodies**: given the correspondence for calls, the reference evaluation of the translation of
     a body of the fragment corresponds to the denotation of the body -/
 theorem body_simW (cfg : Cfg) (hcfg : cfg.engine = false) (strict : Bool)
-    (dyn : Dyn → St → Term → Res Out) (call : Term → St → Res SOut) (H : CallW strict dyn call) :
+    (dyn : Dyn → St → Term → Res Out) (call : Term → St → Res SOut) (H : CallW strict dyn call)
+    (HE : strict = false → DynErr dyn) (HC : strict = false → Call1W dyn call)
+    (HL : strict = false → LateW dyn call) :
     ∀ (bS : Body), bS.ok strict = true → ∀ (bD : Body) (W : World), BodyRel W.Eq bS bD →
       ∀ (top : Bool) (x l : Term) (s m : Nat), PreW W x l s m (m + bS.nhid) →
         RelW strict W (Fr s m (m + bS.nhid)) s (solveGoal cfg.uf call (bS.tr x (.var s) m).1 W.stS)
@@ -805,10 +920,19 @@ theorem body_simW (cfg : Cfg) (hcfg : cfg.engine = false) (strict : Bool)
     intro hok bD W hrel top x l s m P
     cases hrel with
     | nt hargs =>
+      rename_i asD
       simp only [Body.ok] at hok
       simp only [Body.tr, denBody]
-      rw [solveGoal_nt _ _ _ _ _ _ _ (ntOK_ctl hok)]
-      exact (H f asS _ hok W P.good x l s P.inp hargs P.sUn P.sLt).mono (fun v hv => .inl hv)
+      cases hnt : ntOK strict f asS with
+      | true =>
+        rw [solveGoal_nt _ _ _ _ _ _ _ (ntOK_ctl hnt)]
+        exact (H f asS _ hnt W P.good x l s P.inp hargs P.sUn P.sLt).mono (fun v hv => .inl hv)
+      | false =>
+        have hs : strict = false := ok_strict_false hok hnt
+        subst hs
+        obtain ⟨e, he⟩ := HE rfl f asD (by rw [← ntOK_false_len f hargs.length_eq]; exact hnt) W.stD l
+        rw [he]
+        exact RelG.errD rfl _
   | seq a b iha ihb =>
     intro hok bD W hrel top x l s m P
     cases hrel with
@@ -836,8 +960,22 @@ theorem body_simW (cfg : Cfg) (hcfg : cfg.engine = false) (strict : Bool)
       rename_i a' b'
       simp only [Body.ok, Bool.and_eq_true, Bool.not_eq_true'] at hok
       simp only [Body.nhid] at P ⊢
+      by_cases hne : a = .nt "->" []
+      · subst hne
+        cases ha with
+        | nt hargs =>
+          cases hargs
+          have hs : strict = false := by
+            have := hok.1.1
+            simp only [Body.ok] at this
+            exact ok_strict_false this (by simp [ntOK, special, ctl2])
+          subst hs
+          obtain ⟨e, he⟩ := HE rfl "->" [] (by simp [ntOK, special, ctl2]) W.stD l
+          rw [denBody_alt cfg hcfg]
+          simp only [denBody, he, dAlt]
+          exact RelG.errD rfl _
       simp only [Body.tr, tr_next]
-      rw [solveGoal_disj' _ _ _ _ _ (tr_notThen2 strict a hok.1.1 hok.2 _ _ _), denBody_alt cfg hcfg]
+      rw [solveGoal_disj' _ _ _ _ _ (tr_notThen2 strict a hok.1.1 hok.2 hne _ _ _), denBody_alt cfg hcfg]
       have Pa : PreW W x l s m (m + a.nhid) :=
         ⟨P.good, P.inp, P.sUn, P.sLt, fun v h1 h2 => P.hUn v h1 (by omega), by have := P.hLt; omega,
           fun h => P.sOut (by omega)⟩
@@ -909,7 +1047,11 @@ theorem body_simW (cfg : Cfg) (hcfg : cfg.engine = false) (strict : Bool)
       simp only [Body.ok] at hok
       simp only [Body.tr]
       rw [solveGoal_conj', denBody_block]
-      have hb := block_sim strict cfg.uf call hg hok W P.good (fun _ _ h => h) l
+      have hok' : goalOK gS = true ∨ strict = false := by
+        cases hgo : goalOK gS with
+        | true => exact .inl rfl
+        | false => right; simpa [hgo] using hok
+      have hb := block_sim strict cfg.uf call hg hok' W P.good (fun _ _ h => h) l
       cases hd : dBlock (evalBlock cfg.uf gD W.stD) l with
       | error e =>
         rw [hd] at hb
@@ -956,6 +1098,38 @@ theorem body_simW (cfg : Cfg) (hcfg : cfg.engine = false) (strict : Bool)
     rw [solveGoal_conj', solveGoal_cut]
     simp only [denBody]
     exact tailG P (RelG.same P.good l true)
-  | _ => intro hok; simp [Body.ok] at hok
+  | call1 gS =>
+    intro hok bD W hrel top x l s m P
+    have hs : strict = false := by simpa [Body.ok] using hok
+    subst hs
+    cases hrel with
+    | call1 hg =>
+      simp only [Body.tr]
+      rw [solveGoal_a3]
+      have := HC rfl gS _ W P.good x l s P.inp hg P.sUn P.sLt
+      simp only [denBody]
+      exact RelG.mono this (fun v hv => .inl hv)
+  | phrase gS =>
+    intro hok bD W hrel top x l s m P
+    have hs : strict = false := by simpa [Body.ok] using hok
+    subst hs
+    cases hrel with
+    | phrase hg =>
+      simp only [Body.tr]
+      rw [solveGoal_a3]
+      have := HL rfl gS _ W P.good x l s P.inp hg P.sUn P.sLt
+      simp only [denBody]
+      exact RelG.mono this (fun v hv => .inl hv)
+  | var v =>
+    intro hok bD W hrel top x l s m P
+    have hs : strict = false := by simpa [Body.ok] using hok
+    subst hs
+    cases hrel with
+    | var hg =>
+      simp only [Body.tr]
+      rw [solveGoal_a3]
+      have := HL rfl (.var v) _ W P.good x l s P.inp hg P.sUn P.sLt
+      simp only [denBody]
+      exact RelG.mono this (fun v hv => .inl hv)
 
 end PrologVerif.Grammar
